@@ -247,16 +247,9 @@ theorem runLoop_pair (c : Nat) (env : Env) (hb : EnvBounded env c) (fuel : Nat) 
   rw [h] at this; exact this
 
 /-- the deferred calls of `runFirst`: reset DIRTY and TERMINATE, `Up`, `Pop`, the page index put back -/
-theorem firstFinish_keeps (c : Nat) (idx0 : Nat) : EKeeps (ECacheR c) (do
-    let _ ← vm (resetFlagM Facts.dirtyFlag)
-    let _ ← vm (resetFlagM Facts.terminateFlag)
-    let e ← EM.get
-    match e.vm.st.up with
-    | .ok (_, st') => EM.modify fun e => { e with vm := { e.vm with st := st' } }
-    | _ => pure ()
-    EM.modify fun e => { e with vm := { e.vm with ca := e.vm.ca.pop.1 } }
-    EM.modify fun e => { e with vm := { e.vm with st := { e.vm.st with sizeIdx := idx0 } } } : EM Unit) := by
+theorem firstFinish_keeps (c : Nat) (idx0 : Nat) : EKeeps (ECacheR c) (firstFinish idx0) := by
   have P := eCacheR_pre c
+  unfold firstFinish
   apply EKeeps.bind P (EKeeps.vm (Keeps.of_sameCache (flagOps_sameCache _).2.1)); intro _
   apply EKeeps.bind P (EKeeps.vm (Keeps.of_sameCache (flagOps_sameCache _).2.1)); intro _
   apply EKeeps.bind P (EKeeps.get P); intro e
